@@ -115,11 +115,12 @@ func (eng *Engine) loadNoEffect(path string) error {
 			eng.pureRe = append(eng.pureRe, pureSpec{name: f[0], re: re})
 			continue
 		}
-		if strings.HasPrefix(line, "bump:") || strings.HasPrefix(line, "bumpok:") {
+		if strings.HasPrefix(line, "bump:") || strings.HasPrefix(line, "bumpok:") || strings.HasPrefix(line, "bumptrue:") {
 			// bump:<pkg dir>.<ghost int var> <regex>: args-only callee whose every call is counted
 			// bumpok: same, but only calls returning a nil error are counted
 			onlyOK := strings.HasPrefix(line, "bumpok:")
-			f := strings.Fields(strings.TrimPrefix(strings.TrimPrefix(line, "bumpok:"), "bump:"))
+			onlyTrue := strings.HasPrefix(line, "bumptrue:") // count only calls returning true
+			f := strings.Fields(strings.TrimPrefix(strings.TrimPrefix(strings.TrimPrefix(line, "bumptrue:"), "bumpok:"), "bump:"))
 			if len(f) != 2 {
 				return fmt.Errorf("%s: malformed bump: line %q", path, line)
 			}
@@ -127,7 +128,7 @@ func (eng *Engine) loadNoEffect(path string) error {
 			if err != nil {
 				return fmt.Errorf("%s: %v", path, err)
 			}
-			eng.bumpRe = append(eng.bumpRe, pureSpec{name: f[0], re: re, onlyOK: onlyOK})
+			eng.bumpRe = append(eng.bumpRe, pureSpec{name: f[0], re: re, onlyOK: onlyOK, onlyTrue: onlyTrue})
 			eng.argsOnlyRe = append(eng.argsOnlyRe, re)
 			continue
 		}
@@ -482,6 +483,7 @@ type pureSpec struct {
 	name   string
 	re     *regexp.Regexp
 	onlyOK bool // bumpok: count only calls returning a nil error
+	onlyTrue bool // bumptrue: count only calls returning true
 }
 
 func (eng *Engine) ghostVarNamed(name string) bool {
